@@ -311,6 +311,7 @@ func c07() {
 		run.Require("rule_drop_pairs_evaluated", 100)
 		run.Require("valid_accepted", 100)
 	}
+	run.RunSecondaryBuild()
 	run.Finish(run.Counter("injected_defects")+run.Counter("valid_policies")+run.Counter("unsupported_arch_lookups")+run.Counter("tableless_arch_compiles"), int64(len(distinct)),
 		"each defect class of the statement injected at every position (first/middle/last for long lists) of accepted PRNG base policies on 4 architectures; tableless architectures through GetInfo and hook H1; defect-free policies from three profiles must be accepted; rule-drop pairs (satisfying event vs event failing exactly one condition) must get different verdicts whenever the reference semantics distinguishes them; distinct = (defect kind, groups, position class)")
 }
